@@ -10,7 +10,9 @@ RULE = ("Hypothesis-generated (scenario, schedule) cases run under the controlle
         "delayed output times of values delivered to trigger inputs) and requires every step to be the minimum "
         "outstanding demand, strictly increasing, in [0, until), and every demand executed at the end; debug runs "
         "also compare the labels with world.execution_graph. non-trivial = the run has a trigger-caused step and "
-        "a non-FIFO release, or a demand inserted below an outstanding one; distinct = distinct case hashes")
+        "a non-FIFO release, or a demand inserted below an outstanding one; distinct = distinct case hashes"
+        "; in addition four long runs (until 80 / 120 / 1100) under FIFO, LIFO and a starved simulator, and the "
+        "extreme policies (LIFO, steps first, get_data first, each simulator starved) before every schedule enumeration")
 ASSUMPTIONS = [
     "scripted compliant simulators; 'demanded' as derived by the monitor from observed replies (DESIGN 2.3)",
     "runs aborted by a C05-class failure (deadlock / internal error) are counted, not judged here",
